@@ -49,6 +49,13 @@ func writerSpace(r *chk.Run, so spaceOpts, oracle writerOracle) {
 		if so.skipMagicOff {
 			cfg.Flags &^= gow.FSkipMagic
 		}
+		for _, o := range c.Ops {
+			if o.Kind == model.KAttachment {
+				// how the attachment data is supplied is an environment answer: every kind is enumerated
+				cfg.AttKind = x.Choose("cfg", 3)
+				break
+			}
+		}
 		res := gow.Write(c, cfg, nil, nil)
 		x.Note = note(c, cfg)
 		x.State = explore.Hash(res.Bytes)
